@@ -5,7 +5,8 @@
    dRdAngleX_/Y_/Z_ exactly as the code fills them;  extraX = Rz*Ry*E00, extraY = Rz*E11*Rx, extraZ = E22*Ry*Rx. *)
 From Coq Require Import Reals ZArith Lra Bool.
 From Coquelicot Require Import Coquelicot.
-From Romea Require Import Num NumR AnglesModel AnglesProofs AnglesRoundtrip PoseCovModel PoseCovProofs DerivProofs PoseJacProofs PoseJacDeriv.
+From Romea Require Import Num NumR AnglesModel AnglesProofs AnglesRoundtrip PoseCovModel PoseCovProofs DerivProofs PoseJacProofs PoseJacDeriv
+  Atan2Deriv PoseJacCharts LsCovContract.
 Local Open Scope R_scope.
 
 (* --- the true derivatives of the reported rotation matrix, entry by entry, in each angle --- *)
@@ -82,14 +83,27 @@ Theorem C12_pose_dS_true : forall x y z,
 Proof. exact dSd_of_true. Qed.
 Print Assumptions C12_pose_dS_true.
 
+(* --- the derivative of atan2 (Ratan2, the real instance of the dictionary's natan2 = std::atan2) along a differentiable
+       path (x(t), y(t)), at every point where atan2 is differentiable at all: off the branch cut {y = 0, x <= 0}
+       (origin included).  Proved on the three charts x > 0, y > 0, y < 0.  On the cut atan2 jumps from pi to below -pi/2
+       (C12_atan2_cut_jump), so the hypothesis cannot be dropped. --- *)
+Theorem C12_atan2_derivative : forall (x y : R -> R) t0 x' y',
+  is_derive x t0 x' -> is_derive y t0 y' -> ~ (y t0 = 0 /\ x t0 <= 0) ->
+  is_derive (fun t => Ratan2 (y t) (x t)) t0 ((x t0 * y' - y t0 * x') / (x t0 ^ 2 + y t0 ^ 2)).
+Proof. exact is_derive_Ratan2_xy. Qed.
+Print Assumptions C12_atan2_derivative.
+
+Theorem C12_atan2_cut_jump : forall x, x < 0 -> Ratan2 0 x = PI /\ forall y, y < 0 -> Ratan2 y x < - PI / 2.
+Proof. exact Ratan2_cut_jump. Qed.
+
 (* --- repaired code: J is the Jacobian of the library's own pose map (position' = l*p + t, angles' = angles of l*Rz*Ry*Rx).
-       Position block = l (full).  Angular block = derivatives of the extracted angles (raw_roll = atan2(M21,M22),
-       raw_pitch = -asin(M20), raw_yaw = atan2(M10,M00), i.e. before between0And2Pi, which is piecewise a constant shift)
-       in roll, pitch, yaw.  PARTIAL: proved where M22 > 0 and M00 > 0 (transformed roll and yaw inside (-pi/2,pi/2), where
-       atan2 = atan(y/x)); what is missing is the same statement on the other atan2 charts (the formula is chart
-       independent; the oracle covers all quadrants numerically). --- *)
-Theorem C12_pose_jacobian_angular_partial : forall l x y z,
-  0 < m22 (Mrot l x y z) -> 0 < m00 (Mrot l x y z) -> Rabs (m20 (Mrot l x y z)) < 1 ->
+       Position block = l (C12_pose_jacobian_blocks).  Angular block = derivatives in roll, pitch, yaw of the extracted angles
+       raw_roll = atan2(M21,M22), raw_pitch = -asin(M20), raw_yaw = atan2(M10,M00) (before between0And2Pi), for EVERY matrix l,
+       on every chart of atan2: wherever (M21,M22) and (M10,M00) are off the branch cut of atan2 and |M20| < 1.
+       off_cut y x := ~ (y = 0 /\ x <= 0).  (Replaces C12_pose_jacobian_angular_partial, which asked M22 > 0 and M00 > 0.) --- *)
+Theorem C12_pose_jacobian_angular : forall l x y z,
+  off_cut (m21 (Mrot l x y z)) (m22 (Mrot l x y z)) -> off_cut (m10 (Mrot l x y z)) (m00 (Mrot l x y z)) ->
+  Rabs (m20 (Mrot l x y z)) < 1 ->
   let J := pose_J_angular ROps l (mkV3 x y z) in
   (is_derive (fun t => raw_roll (Mrot l t y z)) x (m00 J) /\ is_derive (fun t => raw_pitch (Mrot l t y z)) x (m10 J) /\
    is_derive (fun t => raw_yaw (Mrot l t y z)) x (m20 J)) /\
@@ -97,8 +111,83 @@ Theorem C12_pose_jacobian_angular_partial : forall l x y z,
    is_derive (fun t => raw_yaw (Mrot l x t z)) y (m21 J)) /\
   (is_derive (fun t => raw_roll (Mrot l x y t)) z (m02 J) /\ is_derive (fun t => raw_pitch (Mrot l x y t)) z (m12 J) /\
    is_derive (fun t => raw_yaw (Mrot l x y t)) z (m22 J)).
-Proof. exact pose_J_angular_is_jacobian. Qed.
-Print Assumptions C12_pose_jacobian_angular_partial.
+Proof. exact pose_J_angular_is_jacobian_charts. Qed.
+Print Assumptions C12_pose_jacobian_angular.
+
+(* --- the same for the angles the library actually reports, rep_X = between0And2Pi(raw_X) (r2e = rotation3DToEulerAngles
+       returns exactly these: C12_reported_angles): ordinary derivatives wherever no reported angle is 0, the only place
+       where the [0,2pi) representative jumps.  off_zero y x := ~ (y = 0 /\ 0 <= x).  This covers the branch cut of atan2
+       (reported roll or yaw = pi), where the raw angle is not even continuous. --- *)
+Theorem C12_reported_angles : forall m, Rabs (m20 m) <= 1 ->
+  rotation3DToEulerAngles ROps ROps idR idR m = Some (mkV3 (rep_roll m) (rep_pitch m) (rep_yaw m)) /\
+  rep_roll m = between0And2Pi ROps idR idR (raw_roll m) /\ rep_pitch m = between0And2Pi ROps idR idR (raw_pitch m) /\
+  rep_yaw m = between0And2Pi ROps idR idR (raw_yaw m).
+Proof. intros m H. split; [exact (r2e_reports m H)|repeat split]. Qed.
+
+Theorem C12_pose_jacobian_angular_reported : forall l x y z,
+  off_zero (m21 (Mrot l x y z)) (m22 (Mrot l x y z)) -> off_zero (m10 (Mrot l x y z)) (m00 (Mrot l x y z)) ->
+  Rabs (m20 (Mrot l x y z)) < 1 -> m20 (Mrot l x y z) <> 0 ->
+  let J := pose_J_angular ROps l (mkV3 x y z) in
+  (is_derive (fun t => rep_roll (Mrot l t y z)) x (m00 J) /\ is_derive (fun t => rep_pitch (Mrot l t y z)) x (m10 J) /\
+   is_derive (fun t => rep_yaw (Mrot l t y z)) x (m20 J)) /\
+  (is_derive (fun t => rep_roll (Mrot l x t z)) y (m01 J) /\ is_derive (fun t => rep_pitch (Mrot l x t z)) y (m11 J) /\
+   is_derive (fun t => rep_yaw (Mrot l x t z)) y (m21 J)) /\
+  (is_derive (fun t => rep_roll (Mrot l x y t)) z (m02 J) /\ is_derive (fun t => rep_pitch (Mrot l x y t)) z (m12 J) /\
+   is_derive (fun t => rep_yaw (Mrot l x y t)) z (m22 J)).
+Proof. exact pose_J_angular_is_jacobian_reported. Qed.
+Print Assumptions C12_pose_jacobian_angular_reported.
+
+(* --- the whole statement on the whole domain of the property: for every rigid transform (l a proper rotation, any t) and
+       every pose whose transformed attitude is off gimbal lock (|M20| < 1), EVERY entry (i,j) of the 6x6 matrix J the code
+       builds is the partial derivative, in input j, of output i of the model's own pose map
+           pose_map l t q = (l*position + t, reported angles of l*Rz*Ry*Rx)      (pose_transform_mean, C12_pose_map_is_model)
+       where the three angle outputs are differentiated as points of the circle R/2piZ:
+           is_derive_mod2pi f t d := exists g, (near t: f = g modulo 2pi) /\ is_derive g t d
+       (for the position rows: ordinary derivatives).  d is unique (C12_derive_mod2pi_unique), and equals the ordinary
+       derivative whenever f itself is differentiable.  upd q j s = q with component j replaced by s. --- *)
+Theorem C12_pose_map_is_model : forall l t q i,
+  pose_map l t q i =
+  (let r := pose_transform_mean ROps ROps idR idR l t (mkV3 (q 0%nat) (q 1%nat) (q 2%nat)) (mkV3 (q 3%nat) (q 4%nat) (q 5%nat)) in
+   if Nat.ltb i 3 then vget3 (fst r) i else match snd r with Some e => vget3 e (i - 3) | None => 0 end).
+Proof. reflexivity. Qed.
+
+Theorem C12_derive_mod2pi_unique : forall f t d1 d2,
+  is_derive_mod2pi f t d1 -> is_derive_mod2pi f t d2 -> d1 = d2.
+Proof. exact is_derive_mod2pi_unique. Qed.
+Theorem C12_derive_mod2pi_of_derive : forall f t d, is_derive f t d -> is_derive_mod2pi f t d.
+Proof. exact is_derive_mod2pi_of_derive. Qed.
+
+Theorem C12_pose_jacobian : forall l t q,
+  proper_rotation l -> Rabs (m20 (Mrot l (q 3%nat) (q 4%nat) (q 5%nat))) < 1 ->
+  let J := pose_J ROps l (mkV3 (q 3%nat) (q 4%nat) (q 5%nat)) in
+  forall i j, (i < 6)%nat -> (j < 6)%nat ->
+    ((i < 3)%nat -> is_derive (fun s => pose_map l t (upd q j s) i) (q j) (J i j)) /\
+    is_derive_mod2pi (fun s => pose_map l t (upd q j s) i) (q j) (J i j).
+Proof. exact pose_J_is_jacobian. Qed.   (* assumptions: printed with C12_pose_covariance, which is built on this theorem *)
+
+(* angular block alone, same domain, the nine entries spelled out *)
+Theorem C12_pose_jacobian_angular_mod2pi : forall l x y z,
+  proper_rotation l -> Rabs (m20 (Mrot l x y z)) < 1 ->
+  let J := pose_J_angular ROps l (mkV3 x y z) in
+  (is_derive_mod2pi (fun t => rep_roll (Mrot l t y z)) x (m00 J) /\ is_derive_mod2pi (fun t => rep_pitch (Mrot l t y z)) x (m10 J) /\
+   is_derive_mod2pi (fun t => rep_yaw (Mrot l t y z)) x (m20 J)) /\
+  (is_derive_mod2pi (fun t => rep_roll (Mrot l x t z)) y (m01 J) /\ is_derive_mod2pi (fun t => rep_pitch (Mrot l x t z)) y (m11 J) /\
+   is_derive_mod2pi (fun t => rep_yaw (Mrot l x t z)) y (m21 J)) /\
+  (is_derive_mod2pi (fun t => rep_roll (Mrot l x y t)) z (m02 J) /\ is_derive_mod2pi (fun t => rep_pitch (Mrot l x y t)) z (m12 J) /\
+   is_derive_mod2pi (fun t => rep_yaw (Mrot l x y t)) z (m22 J)).
+Proof. exact pose_J_angular_is_jacobian_mod2pi. Qed.   (* used by C12_pose_jacobian: same assumptions *)
+
+(* --- the covariance sentence in one statement: J is that Jacobian, the attached covariance is J*C*J^T entry by entry,
+       and it is symmetric / positive semi-definite whenever C is --- *)
+Theorem C12_pose_covariance : forall l t q (c : mat R),
+  proper_rotation l -> Rabs (m20 (Mrot l (q 3%nat) (q 4%nat) (q 5%nat))) < 1 ->
+  let J := pose_J ROps l (mkV3 (q 3%nat) (q 4%nat) (q 5%nat)) in
+  let C' := pose_cov ROps J c in
+  (forall i j, (i < 6)%nat -> (j < 6)%nat -> is_derive_mod2pi (fun s => pose_map l t (upd q j s) i) (q j) (J i j)) /\
+  (forall a b, C' a b = nsum ROps 6 (fun m => nsum ROps 6 (fun k => J a k * c k m) * J b m)) /\
+  (gsym 6 c -> gsym 6 C') /\ (gpsd 6 c -> gpsd 6 C').
+Proof. exact pose_cov_propagation. Qed.
+Print Assumptions C12_pose_covariance.
 
 Theorem C12_pose_jacobian_blocks : forall l ori (t p : vec3 R),
   (forall i j, (i < 3)%nat -> (j < 3)%nat -> pose_J ROps l ori i j = mget3 l i j) /\
@@ -134,11 +223,45 @@ Theorem C12_ls_covariance : forall n (a inv : mat R) v i j, gdiagonal n a -> (i 
 Proof. exact ls_covariance_diag. Qed.
 Print Assumptions C12_ls_covariance.
 
+(* --- ... and with the contract of that oracle argument stated (ls_inv_contract n inv N: inv * N = I on indices < n, N = J^T J
+       built by ls_JtJ from the m x n design matrix), the reported matrix with the preconditioner removed on both sides is
+       variance times the inverse normal matrix:  A^-1 * cov * A^-1 * (J^T J) = variance * I  (a_ii <> 0).
+       The contract determines inv whenever J^T J is invertible (C12_ls_inverse_unique). --- *)
+Theorem C12_ls_covariance_inverse_normal : forall m n (jac a inv : mat R) v,
+  gdiagonal n a -> (forall i, (i < n)%nat -> a i i <> 0) ->
+  ls_inv_contract n inv (ls_JtJ ROps m n jac) ->
+  forall i k, (i < n)%nat -> (k < n)%nat ->
+    nsum ROps n (fun j => ls_covariance ROps n a inv v i j / (a i i * a j j) * ls_JtJ ROps m n jac j k) =
+    if Nat.eqb i k then v else 0.
+Proof. exact ls_covariance_inverse_normal. Qed.
+Print Assumptions C12_ls_covariance_inverse_normal.
+
+Theorem C12_ls_inverse_unique : forall n (inv1 inv2 nm rinv : mat R),
+  ls_inv_contract n inv1 nm -> ls_inv_contract n inv2 nm ->
+  (forall i k, (i < n)%nat -> (k < n)%nat -> nsum ROps n (fun r => nm i r * rinv r k) = if Nat.eqb i k then 1 else 0) ->
+  forall i k, (i < n)%nat -> (k < n)%nat -> inv1 i k = inv2 i k.
+Proof. exact ls_inv_contract_unique. Qed.
+
 (* --- non-vacuity --- *)
-Example C12_ex_jacobian_hyp :   (* identity transform, zero angles: inside the chart *)
+Example C12_ex_ls_contract :   (* one unknown, J = (2), J^T J = 4, inv = 1/4, preconditioner 3 *)
+  ls_inv_contract 1 (fun _ _ => / 4) (ls_JtJ ROps 1 1 (fun _ _ => 2)) /\
+  gdiagonal 1 (fun _ _ => 3) /\ (forall i, (i < 1)%nat -> (fun _ _ : nat => 3) i i <> 0).
+Proof. exact ex_ls_contract. Qed.
+Example C12_ex_jacobian_hyp :   (* identity transform, zero angles *)
   0 < m22 (Mrot (mid3 ROps) 0 0 0) /\ 0 < m00 (Mrot (mid3 ROps) 0 0 0) /\ Rabs (m20 (Mrot (mid3 ROps) 0 0 0)) < 1.
 Proof.
   unfold Mrot. rewrite mmul3_id_l, rot_zyx_entries. cbn [m00 m20 m22]. rewrite sin_0, cos_0, Ropp_0, Rabs_R0. lra.
 Qed.
+Example C12_ex_second_quadrant :   (* identity transform, roll = yaw = 2pi/3: off the cut, outside the old chart *)
+  let m := Mrot (mid3 ROps) (2 * (PI / 3)) 0 (2 * (PI / 3)) in
+  off_cut (m21 m) (m22 m) /\ off_cut (m10 m) (m00 m) /\ Rabs (m20 m) < 1 /\ m22 m < 0 /\ m00 m < 0.
+Proof. exact ex_second_quadrant. Qed.
+Example C12_ex_on_cut :   (* roll = yaw = pi, pitch = pi/6: on the cut of atan2; the reported-angle theorems apply *)
+  let m := Mrot (mid3 ROps) PI (PI / 6) PI in
+  ~ off_cut (m21 m) (m22 m) /\ ~ off_cut (m10 m) (m00 m) /\
+  off_zero (m21 m) (m22 m) /\ off_zero (m10 m) (m00 m) /\ Rabs (m20 m) < 1 /\ m20 m <> 0.
+Proof. exact ex_on_cut. Qed.
+Example C12_ex_rigid : proper_rotation (mid3 ROps).
+Proof. exact proper_id. Qed.
 Example C12_ex_diagonal : gdiagonal 2 (fun i j => if Nat.eqb i j then 3 else 0).
 Proof. intros i j _ _ H. apply Nat.eqb_neq in H. rewrite H. reflexivity. Qed.
